@@ -45,9 +45,13 @@ type tgraph struct {
 	Dag  bool   `json:"dag,omitempty"`
 	// StreamOnly: the graph is only meaningful in the stream paradigm (Invoke concatenates a streaming node's
 	// output, and a stream without chunks does not concatenate): reference run and every call use Stream
-	StreamOnly bool        `json:"stream_only,omitempty"`
-	Nodes      []tnode     `json:"nodes"`
-	Edges      [][2]string `json:"edges"`
+	StreamOnly bool `json:"stream_only,omitempty"`
+	// ChainPar: the graph is built as a Chain: lambda head, then a Parallel of the nested graph "sub" (Parallel.AddGraph,
+	// with the nested interrupt points as the caller's WithGraphCompileOptions) and the lambda "l"; Edges describe the
+	// same structure for the judges
+	ChainPar bool        `json:"chain_par,omitempty"`
+	Nodes    []tnode     `json:"nodes"`
+	Edges    [][2]string `json:"edges"`
 }
 
 // TypedTrace is one typed history.
@@ -102,6 +106,19 @@ func typedGraphs() []*tgraph {
 		gs = append(gs, &tgraph{Name: "empty-stream" + sfx, In: "S", Out: "S", Dag: dag, StreamOnly: true, Nodes: []tnode{{Key: "filter", In: "S", Out: "S", Kind: "stream0"}, {Key: "count", In: "S", Out: "S", Kind: "collect"}, {Key: "tail", In: "S", Out: "S"}},
 			Edges: [][2]string{{"start", "filter"}, {"filter", "count"}, {"count", "tail"}, {"tail", "end"}}})
 	}
+	for _, dag := range []bool{false, true} {
+		sfx := "/pregel"
+		if dag {
+			sfx = "/dag"
+		}
+		// a node with an input key AND an output key, a pass-through typed from it, a keyed consumer: the value parked
+		// in front of the pass-through at an interrupt is the MAP the keyed node hands to the graph
+		gs = append(gs, &tgraph{Name: "keys-pass" + sfx, In: "M", Out: "M", Dag: dag, Nodes: []tnode{{Key: "a", In: "S", Out: "S", InKey: "q", OutKey: "a"}, {Key: "p", Pass: true}, {Key: "b", In: "S", Out: "N", InKey: "a", OutKey: "b"}},
+			Edges: [][2]string{{"start", "a"}, {"a", "p"}, {"p", "b"}, {"b", "end"}}})
+	}
+	// a nested graph added to the Parallel of a Chain: its interrupt points travel as the caller's compile options of that node
+	gs = append(gs, &tgraph{Name: "chain-parallel-sub", In: "S", Out: "M", ChainPar: true, Nodes: []tnode{{Key: "head", In: "S", Out: "S"}, {Key: "sub", Sub: sub, OutKey: "sub"}, {Key: "l", In: "S", Out: "S", OutKey: "l"}},
+		Edges: [][2]string{{"start", "head"}, {"head", "sub"}, {"head", "l"}, {"sub", "end"}, {"l", "end"}}})
 	// START's value parked in a channel at the interrupt: b waits for START and for a (all-predecessor mode only)
 	gs = append(gs, &tgraph{Name: "start-fanin/dag", In: "M", Out: "S", Dag: true, Nodes: []tnode{{Key: "a", In: "M", Out: "S", OutKey: "a"}, {Key: "b", In: "M", Out: "S"}},
 		Edges: [][2]string{{"start", "a"}, {"start", "b"}, {"a", "b"}, {"b", "end"}}})
@@ -301,11 +318,29 @@ func drainTyped[O any](sr *schema.StreamReader[O]) (string, error) {
 	return renderTyped(chunks[0]), nil
 }
 
-func compileTyped[I, O any](tg *tgraph, ints map[string]IntCfg, store compose.CheckPointStore, log *typedLog) (*typedRunnable, error) {
-	g, err := newTypedGraph[I, O](tg, "", ints, log)
-	if err != nil {
-		return nil, err
+// chainParallel builds a ChainPar graph: head -> Parallel{sub (nested graph), l} as a Chain[string, map].
+func chainParallel(tg *tgraph, ints map[string]IntCfg, log *typedLog, co []compose.GraphCompileOption) (compose.Runnable[string, map[string]any], error) {
+	ch := compose.NewChain[string, map[string]any]()
+	par := compose.NewParallel()
+	for _, n := range tg.Nodes {
+		switch {
+		case n.Sub != nil:
+			sg, err := newTypedGraph[string, int](n.Sub, n.Key+"/", ints, log)
+			if err != nil {
+				return nil, err
+			}
+			par.AddGraph(n.OutKey, sg, compose.WithNodeKey(n.Key), compose.WithGraphCompileOptions(intOpts(ints[n.Key])...))
+		case n.OutKey != "":
+			par.AddLambda(n.OutKey, lambdaFor(n, "", log), compose.WithNodeKey(n.Key))
+		default:
+			ch.AppendLambda(lambdaFor(n, "", log), compose.WithNodeKey(n.Key))
+		}
 	}
+	ch.AppendParallel(par)
+	return ch.Compile(context.Background(), co...)
+}
+
+func compileTyped[I, O any](tg *tgraph, ints map[string]IntCfg, store compose.CheckPointStore, log *typedLog) (*typedRunnable, error) {
 	co := intOpts(ints[""])
 	if tg.Dag {
 		co = append(co, compose.WithNodeTriggerMode(compose.AllPredecessor))
@@ -313,9 +348,24 @@ func compileTyped[I, O any](tg *tgraph, ints map[string]IntCfg, store compose.Ch
 	if store != nil {
 		co = append(co, compose.WithCheckPointStore(store))
 	}
-	r, err := g.Compile(context.Background(), co...)
-	if err != nil {
-		return nil, err
+	var r compose.Runnable[I, O]
+	if tg.ChainPar {
+		cr, err := chainParallel(tg, ints, log, co)
+		if err != nil {
+			return nil, err
+		}
+		var ok bool
+		if r, ok = any(cr).(compose.Runnable[I, O]); !ok {
+			return nil, fmt.Errorf("typed: a ChainPar graph is string>map")
+		}
+	} else {
+		g, err := newTypedGraph[I, O](tg, "", ints, log)
+		if err != nil {
+			return nil, err
+		}
+		if r, err = g.Compile(context.Background(), co...); err != nil {
+			return nil, err
+		}
 	}
 	return &typedRunnable{call: func(ctx context.Context, mode string, in any, opts ...compose.Option) (string, error) {
 		if mode == "stream" {
@@ -345,6 +395,8 @@ func compileTypedAny(tg *tgraph, ints map[string]IntCfg, store compose.CheckPoin
 		return compileTyped[map[string]any, string](tg, ints, store, log)
 	case "M>M":
 		return compileTyped[map[string]any, map[string]any](tg, ints, store, log)
+	case "S>M":
+		return compileTyped[string, map[string]any](tg, ints, store, log)
 	}
 	return nil, fmt.Errorf("typed: no graph type %s>%s", tg.In, tg.Out)
 }
@@ -499,6 +551,38 @@ func JudgeTyped(prop string, t *TypedTrace, r *typedResult) (string, error) {
 			for _, k := range c.Info.AfterNodes {
 				if !contains(top.After, k) {
 					return "typed:info-lists-unconfigured", fmt.Errorf("call #%d reports after-node %s which is not configured (%s)", i, k, r.summary())
+				}
+			}
+		}
+		// the same two clauses for the nested graph "sub" (its points are configured under that path, its nodes are logged
+		// as sub/<key>, its part of the interrupt information hangs under SubGraphs["sub"]); an inner after-node whose
+		// completion finishes the inner run need not be reported (the statement's "unless the run finished with it")
+		if inner, ok := t.Ints["sub"]; ok {
+			var sub *compose.InterruptInfo
+			if c.Interrupted {
+				sub = infoAt(c.Info, "sub")
+			}
+			for _, k := range c.Started {
+				if !strings.HasPrefix(k, "sub/") {
+					continue
+				}
+				name := k[len("sub/"):]
+				if contains(inner.Before, name) {
+					started[k]++
+					if reported[k] < started[k] {
+						return "typed:before-ignored", fmt.Errorf("node %s is configured interrupt-before inside the nested graph but started in call #%d with only %d preceding interrupt(s) reporting it (%s)", k, i, reported[k], r.summary())
+					}
+				}
+				if name == "x" && contains(inner.After, name) && (sub == nil || !contains(sub.AfterNodes, name)) {
+					return "typed:after-not-reported", fmt.Errorf("interrupt-after node %s of the nested graph completed in call #%d but the call does not report it (%s)", k, i, r.summary())
+				}
+			}
+			if sub != nil {
+				for _, k := range sub.BeforeNodes {
+					if !contains(inner.Before, k) {
+						return "typed:info-lists-unconfigured", fmt.Errorf("call #%d reports before-node sub/%s which is not configured (%s)", i, k, r.summary())
+					}
+					reported["sub/"+k]++
 				}
 			}
 		}
